@@ -293,11 +293,6 @@ def read_sinex_matrix(file):
     Velocities are not included in all SINEX files and so their VCV information
     is only returned if they are present.
 
-    ToDo: 
-    1. The above order is only valid if the matrix is upper triangle. If it is
-       lower triangle, then the covar_xy is actually the var_y. Will need to fix 
-       this when time permits.
-
     :param file: the input SINEX file
     :return: matrix
     """
@@ -347,14 +342,14 @@ def read_sinex_matrix(file):
             for i in range(len(code)):
                 info = (code[i], soln[i], element[6 * i][6 * i],
                         element[6 * i + 1][6 * i],
-                        element[6 * i + 1][6 * i + 1],
                         element[6 * i + 2][6 * i],
+                        element[6 * i + 1][6 * i + 1],
                         element[6 * i + 2][6 * i + 1],
                         element[6 * i + 2][6 * i + 2],
                         element[6 * i + 3][6 * i + 3],
                         element[6 * i + 4][6 * i + 3],
-                        element[6 * i + 4][6 * i + 4],
                         element[6 * i + 5][6 * i + 3],
+                        element[6 * i + 4][6 * i + 4],
                         element[6 * i + 5][6 * i + 4],
                         element[6 * i + 5][6 * i + 5])
                 matrix.append(info)
@@ -377,8 +372,8 @@ def read_sinex_matrix(file):
             for i in range(len(code)):
                 info = (code[i], soln[i], element[3 * i][3 * i],
                         element[3 * i + 1][3 * i],
-                        element[3 * i + 1][3 * i + 1],
                         element[3 * i + 2][3 * i],
+                        element[3 * i + 1][3 * i + 1],
                         element[3 * i + 2][3 * i + 1],
                         element[3 * i + 2][3 * i + 2])
                 matrix.append(info)
